@@ -618,6 +618,8 @@ def r17(ctx):
         dnf = facts.implied(fn, val, True)
         empty = ('(this.m_request.length() == #0)', 'this.m_request.empty()', '(this.m_request.size() == #0)')
         ok = bool(dnf) and all(any(facts.atom_key(fn, a)[0] in empty and facts.atom_key(fn, a)[1] for a in conj) for conj in dnf)
+        # or the emptiness was tested on the way (early return for a pending partial line)
+        ok = ok or fn.needs_one_of(r, [(k, True) for k in empty])
         ctx.ob('C18.R17', fn, r, ok, 'return without a terminator', 'true only when nothing is pending (m_request empty): %s (%s)' % (ok, fn.key(val)[:90]))
     if n < 2:
         raise AnalysisBroken('C18.R17: returns of RequestImpl::add not recognised')
